@@ -42,6 +42,10 @@ def obligations(tier):
            call="props.c17:ob_pp"),
         Ob("C17.fmt", "N", "compact date-time text yyyymmddhhmmss + fraction digits -> ISO 8601 of the same instant (scene centre: ms digits, volume creation: 1/100 s digits)",
            ["ceos_alos2.transformers:normalize_datetime"], bounds="forall digit strings with valid zero-padded fields, 2..3 fraction digits", call="props.c17:ob_fmt"),
+        Ob("C17.units", "N", "per-line time variables keep every stored digit: the datetime64 unit the line-metadata transformer stores them in divides one millisecond (ms stamp) / "
+           "one microsecond (us stamp), so no value is truncated", ["ceos_alos2.sar_image.metadata:transform_line_metadata", "ceos_alos2.sar_image.metadata:apply_overrides"],
+           bounds="forall ms 0..86399999 and us 0..86399999999 under the integer model of numpy's datetime -> datetime64[unit] conversion (floor to the unit; validated against numpy in "
+           "validate_stubs); the unit is read off the real transformer's output on every run; counterexamples are replayed through the real transformer", call="props.c17:ob_units"),
         Ob("C17.e2e", "E", "witness replay: one instant (29 Feb, day 366, last millisecond of a day, ...) written into the image line record, the attitude point, the platform-position "
            "first point and the scene-centre field reads back as the same datetime everywhere", ["ceos_alos2.xarray:open_alos2"], bounds="concrete replays (not the deciding step): 5 instants",
            call="props.e2e:ob_times", wall_timeout=600),
@@ -91,6 +95,69 @@ def _pp_sweep(f):
                 if len(bad) > 5:
                     return bad
     return bad
+
+
+_UNIT_NS = {"s": 10**9, "ms": 10**6, "us": 10**3, "ns": 1, "ps": None, "m": 60 * 10**9, "h": 3600 * 10**9, "D": 86400 * 10**9}
+
+
+def _line_times(us_values):
+    """real transformer on parsed-record dictionaries carrying the two stamps -> {name: (unit, multiple, [ns since epoch])}"""
+    import datetime
+
+    import numpy as np
+
+    from ceos_alos2.sar_image.metadata import transform_line_metadata
+
+    day = datetime.datetime(2020, 2, 29)
+    recs = [{"sar_image_data_line_number": i + 1, "sensor_acquisition_date": day + datetime.timedelta(milliseconds=u // 1000),
+             "sensor_acquisition_date_microseconds": day + datetime.timedelta(microseconds=u)} for i, u in enumerate(us_values)]
+    g = transform_line_metadata(recs)
+    out = {}
+    for name in ("sensor_acquisition_date", "sensor_acquisition_date_microseconds"):
+        data = np.asarray(g.variables[name].data)
+        if not np.issubdtype(data.dtype, np.datetime64):
+            out[name] = (None, 1, [repr(x) for x in data.tolist()])
+            continue
+        unit, mult = np.datetime_data(data.dtype)
+        out[name] = (unit, mult, [int(x) for x in data.astype("datetime64[ns]").astype("int64")])
+    return out
+
+
+def ob_units(tier):
+    import numpy as np
+
+    from vlib.smt import Session
+
+    S = Session()
+    probe = _line_times([0])
+    epoch_day = int(np.datetime64("2020-02-29", "ns").astype("int64"))
+    u = z3.Int("us")
+    cex = {}
+    for name, step_us in (("sensor_acquisition_date", 1000), ("sensor_acquisition_date_microseconds", 1)):
+        unit, mult, _ = probe[name]
+        if unit is None or _UNIT_NS.get(unit) is None:
+            S.failed.append({"label": f"units:{name}:not-a-datetime64-with-a-known-unit", "model": {"unit": repr(unit)}})
+            continue
+        q = _UNIT_NS[unit] * mult
+        stored = u * 1000  # ns since midnight of the value the file stores (a multiple of step_us microseconds)
+        # numpy's conversion floors to the unit: the digits survive iff the stored value is a multiple of the unit
+        ok = S.holds(f"units:{name}:[{mult}{unit}]", [u >= 0, u < 86400 * 10**6, u % step_us == 0], (epoch_day + stored) % q == 0, show=[u])
+        if ok is False:
+            cex[name] = int(str(S.failed[-1]["model"]["us"]))
+    res = S.result()
+    if cex:
+        # replay through the real transformer
+        bad = {}
+        for name, val in cex.items():
+            got = _line_times([val])[name][2][0]
+            want = epoch_day + (val if name.endswith("microseconds") else val // 1000 * 1000) * 1000
+            if got != want:
+                bad[name] = {"us": val, "stored_ns": want, "returned_ns": got}
+        if bad:
+            res.update(verdict="violated", cex=bad, finding_key="C17.units:" + ",".join(sorted(bad)))
+        else:
+            res.update(verdict="inconclusive", reason="unit counterexample did not reproduce on the real transformer")
+    return res
 
 
 def ob_pp(tier):
@@ -370,6 +437,13 @@ def validate_stubs():
     for x in (0.0, 3600.5, 12.25, 0.125, 86399.999999, 59.000001, 7.75):
         assert datetime.timedelta(seconds=x) == datetime.timedelta(microseconds=round(x * 1e6)), x
         n += 1
+    for unit, q in (("s", 10**6), ("ms", 1000), ("us", 1), ("ns", 1)):  # datetime -> datetime64[unit] floors to the unit
+        for us in (1, 999, 1000, 1001, 999999, 1000000, 86399999999):
+            d = datetime.datetime(2020, 2, 29) + datetime.timedelta(microseconds=us)
+            got = int(np.array([d], dtype=f"datetime64[{unit}]").astype("datetime64[us]").astype("int64")[0])
+            want = int(np.datetime64("2020-02-29", "us").astype("int64")) + us // q * q
+            assert got == want, ("numpy datetime64 unit conversion is not a floor", unit, us)
+            n += 1
     arr = np.array([datetime.datetime(2020, 2, 29, 23, 59, 59, 999000)], dtype="datetime64[ns]")
     assert str(arr[0]) == "2020-02-29T23:59:59.999000000"
     return {"numpy_time_model_vectors": n}
